@@ -9,6 +9,7 @@ CONSTANTS WChar = 2
  FIX_D10 = TRUE
  MUT = "none"
  Shapes = {"bin","un","cast","cond","asg","test","opasg","incdec","d2l","d2r","d2u"}
+ SanityBin = FALSE
  OpAsgAll = FALSE
  D2Types = {"uchar","uint","long"}
  D2Ops1 = {"add","sub","mul","shl","shr","bor","lt"}
